@@ -250,22 +250,17 @@ func (m *model) selectValues(s Sel, excl []Sel) []Triple {
 	return out
 }
 
-// asciiOrSame flags non-ASCII case folding (EqualFold is Unicode-aware, ToLower-based code may differ).
+// asciiOrSame flags key comparisons whose outcome depends on which case folding is used (Unicode simple
+// folding, ASCII-only folding, or lower-casing both sides); only then is the selection not pinned.
 func asciiOrSame(a, b string, m *model) bool {
 	if a == b {
 		return true
 	}
-	for i := 0; i < len(a); i++ {
-		if a[i] >= 0x80 {
-			m.amb("non-ASCII key compared case-insensitively")
-			return true
-		}
-	}
-	for i := 0; i < len(b); i++ {
-		if b[i] >= 0x80 {
-			m.amb("non-ASCII key compared case-insensitively")
-			return true
-		}
+	fold := strings.EqualFold(a, b)
+	ascii := asciiMap(a, false) == asciiMap(b, false)
+	lower := strings.ToLower(a) == strings.ToLower(b)
+	if fold != ascii || fold != lower {
+		m.amb("non-ASCII key compared case-insensitively")
 	}
 	return true
 }
